@@ -337,6 +337,27 @@ func runGen(repo, outDir string) error {
 	}
 	sort.Strings(hts)
 	b.WriteString("/-- the schema types the harness table builds (by reflection on its constructors' results) -/\ndef harnessTypes : List String := " + leanList(hts) + "\n\n")
+	// the type-local configuration each modifier method carries (behavioural: reflection on real schemas, frame.go)
+	rows, drops := cfgTable()
+	b.WriteString("/-- harness rows with the kind of their modifier methods as the table declares it -/\ndef cfgRows : List (String × String) := [\n")
+	for i, r := range rows {
+		sep := ","
+		if i == len(rows)-1 {
+			sep = ""
+		}
+		fmt.Fprintf(&b, "  (%s, %s)%s\n", leanStr(r[0]), leanStr(r[1]), sep)
+	}
+	b.WriteString("]\n\n")
+	b.WriteString("/-- the modifier calls each row is put through -/\ndef modOps : List String := " + leanList(opNames[:12]) + "\n\n")
+	b.WriteString("/-- (row, op, fields): calling `op` on the row's schema (as constructed, or after Optional()) yields a schema whose own\n    internals lack these configuration fields of the receiver -/\ndef cfgDrops : List (String × String × String) := [\n")
+	for i, d := range drops {
+		sep := ","
+		if i == len(drops)-1 {
+			sep = ""
+		}
+		fmt.Fprintf(&b, "  (%s, %s, %s)%s\n", leanStr(d[0]), leanStr(d[1]), leanStr(d[2]), sep)
+	}
+	b.WriteString("]\n\n")
 	b.WriteString("end Gozod.Gen.C03Tables\n")
 	return os.WriteFile(filepath.Join(outDir, "C03Tables.lean"), []byte(b.String()), 0o644)
 }
